@@ -12,11 +12,12 @@ use barter::{
     },
 };
 use barter_data::event::DataKind;
+use barter::execution::request::ExecutionRequest;
 use barter_execution::order::request::{OrderRequestCancel, OrderRequestOpen};
 use barter_instrument::index::error::IndexError;
 use barter_integration::{
     Terminal, Unrecoverable,
-    channel::{ChannelState, ChannelTxDroppable, Tx, UnboundedRx, UnboundedTx, mpsc_unbounded},
+    channel::{Channel, ChannelState, ChannelTxDroppable, Tx, UnboundedRx, UnboundedTx, mpsc_unbounded},
     snapshot::{SnapUpdates, Snapshot},
     stream::{
         indexed::{IndexedStream, Indexer},
@@ -107,7 +108,8 @@ impl ChanSt {
 
 fn chan_op(st: &mut Option<ChanSt>, op: &[String], lines: &mut Vec<String>) {
     if op[0] == "chan" {
-        let (tx, rx) = mpsc_unbounded::<u64>();
+        // `Channel::new` (channel.rs:28-33) = `mpsc_unbounded` in a struct
+        let Channel { tx, rx } = Channel::<u64>::new();
         let mut txs = BTreeMap::new();
         txs.insert(0, tx);
         *st = Some(ChanSt { txs, next_handle: 1, rx: RxKind::Rx(rx), d: None });
@@ -215,6 +217,10 @@ fn chan_op(st: &mut Option<ChanSt>, op: &[String], lines: &mut Vec<String>) {
         }
         "disable" => {
             s.d.as_mut().expect("wrap first").disable();
+        }
+        "dropd" => {
+            // the `ChannelTxDroppable` itself goes away, whatever its state
+            drop(s.d.take().expect("wrap first"));
         }
         other => panic!("bad op {other}"),
     }
@@ -438,7 +444,8 @@ struct IndexSt {
 fn index_op(st: &mut Option<IndexSt>, op: &[String], lines: &mut Vec<String>) {
     match op[0].as_str() {
         "index" => {
-            let (tx, rx) = mpsc_unbounded::<u64>();
+            // `<Channel as Default>::default` (channel.rs:35-39)
+            let Channel { tx, rx } = Channel::<u64>::default();
             *st = Some(IndexSt { tx: Some(tx), stream: IndexedStream::new(rx, Ix) });
         }
         "ipush" => {
@@ -495,7 +502,8 @@ fn apply_fn(s: u64, u: u64) -> u64 {
 
 struct ProdSt {
     state: u64,
-    tx: ChannelTxDroppable<UnboundedTx<u64>>,
+    /// `None` once the producer has dropped its transmitter
+    tx: Option<ChannelTxDroppable<UnboundedTx<u64>>>,
     /// the consumer's side: what `SystemBuilder` hands out, until the consumer drops the updates
     consumer: SnapUpdates<u64, Option<UnboundedRx<u64>>>,
     replica: u64,
@@ -511,7 +519,7 @@ fn prod_op(st: &mut Option<ProdSt>, op: &[String], lines: &mut Vec<String>) {
             let SnapUpdates { snapshot, updates } = SnapUpdates { snapshot: v0, updates: rx };
             *st = Some(ProdSt {
                 state: v0,
-                tx: ChannelTxDroppable::new(tx),
+                tx: Some(ChannelTxDroppable::new(tx)),
                 consumer: SnapUpdates::new(snapshot, Some(updates)),
                 replica: snapshot,
                 got: 0,
@@ -522,7 +530,7 @@ fn prod_op(st: &mut Option<ProdSt>, op: &[String], lines: &mut Vec<String>) {
             let s = st.as_mut().expect("prod first");
             let u: u64 = op[1].parse().unwrap();
             s.state = apply_fn(s.state, u);
-            s.tx.send(u);
+            s.tx.as_mut().expect("transmitter alive").send(u);
         }
         "precv" => {
             let s = st.as_mut().expect("prod first");
@@ -538,20 +546,15 @@ fn prod_op(st: &mut Option<ProdSt>, op: &[String], lines: &mut Vec<String>) {
         "pdroprx" => {
             st.as_mut().expect("prod first").consumer.updates.take().expect("receiver alive");
         }
-        "pdisable" => st.as_mut().expect("prod first").tx.disable(),
+        "pdisable" => st.as_mut().expect("prod first").tx.as_mut().expect("transmitter alive").disable(),
+        "pdroptx" => drop(st.as_mut().expect("prod first").tx.take().expect("transmitter alive")),
         other => panic!("bad op {other}"),
     }
     let s = st.as_ref().unwrap();
     lines.push(format!("pstate {}", s.state));
     lines.push(format!("preplica {}", s.replica));
     lines.push(format!("pgot {}", s.got));
-    lines.push(format!(
-        "dstate {}",
-        match s.tx.state {
-            ChannelState::Active(_) => "A",
-            ChannelState::Disabled => "D",
-        }
-    ));
+    lines.push(format!("dstate {}", dstate(&s.tx)));
     lines.push(format!("pend {}", if s.saw_end { 1 } else { 0 }));
 }
 
@@ -687,6 +690,214 @@ fn rundrop(init_toks: &[String], history: &[(Event, Option<Algo>)], mode: &str, 
     lines.push(format!("same_state {}", if same { 1 } else { 0 }));
 }
 
+// ------------------------------------------------------------------------------- the run closure of SystemBuilder::init
+
+type ExecRxs = Arc<Mutex<Vec<Option<UnboundedRx<ExecutionRequest>>>>>;
+
+/// The audit transmitter of `runprod`: the real `UnboundedTx`, which additionally notes how many items every
+/// execution receiver holds at the moment a TERMINAL record is handed over (that is how the harness sees
+/// that `engine.shutdown()` has not run yet at that point).
+#[derive(Debug, Clone)]
+struct ProbeTx {
+    tx: UnboundedTx<Tick>,
+    /// by exchange index
+    exec_rxs: ExecRxs,
+    at_terminal: Arc<Mutex<Vec<Vec<Option<usize>>>>>,
+}
+
+impl Tx for ProbeTx {
+    type Item = Tick;
+    type Error = <UnboundedTx<Tick> as Tx>::Error;
+    fn send<Item: Into<Tick>>(&self, item: Item) -> Result<(), Self::Error> {
+        let item: Tick = item.into();
+        if item.event.is_terminal() {
+            let lens = self.exec_rxs.lock().unwrap().iter().map(|rx| rx.as_ref().map(|rx| rx.rx.len())).collect();
+            self.at_terminal.lock().unwrap().push(lens);
+        }
+        self.tx.send(item)
+    }
+}
+
+/// The engine's feed for `runprod R`: before every R-th `next()` (R = 0: never) the audit consumer reads once.
+struct ProdFeed {
+    events: std::vec::IntoIter<Event>,
+    i: usize,
+    r: usize,
+    tick: Rc<Cell<u64>>,
+    rx: Option<Rc<RefCell<UnboundedRx<Tick>>>>,
+    got: Rc<RefCell<Vec<Tick>>>,
+}
+
+impl Iterator for ProdFeed {
+    type Item = Event;
+    fn next(&mut self) -> Option<Event> {
+        if let Some(rx) = &self.rx {
+            if self.r != 0 && self.i % self.r == 0 {
+                if let Poll::Ready(Some(t)) = poll_once(&mut *rx.borrow_mut()) {
+                    self.got.borrow_mut().push(t);
+                }
+            }
+        }
+        self.i += 1;
+        let e = self.events.next();
+        if e.is_some() {
+            self.tick.set(self.tick.get() + 1);
+        }
+        e
+    }
+}
+
+/// what one execution receiver holds: `n=` order requests, `S=` Shutdowns, `last=` kind of the last item, the
+/// order requests sorted (`cancel_orders` iterates a hash map)
+fn xlink_line(pfx: &str, w: &World, label: usize, got: Option<Vec<ExecutionRequest>>) -> String {
+    let kind = match w.links[label] {
+        Link::Healthy => "H",
+        Link::Closed => "C",
+        Link::Unhealthy => "U",
+        Link::Missing => "M",
+    };
+    let Some(got) = got else { return format!("{pfx}xlink{label} {kind}") };
+    let last = match got.last() {
+        None => "-",
+        Some(ExecutionRequest::Shutdown) => "S",
+        Some(_) => "R",
+    };
+    let nsd = got.iter().filter(|r| matches!(r, ExecutionRequest::Shutdown)).count();
+    let mut reqs: Vec<String> = got
+        .iter()
+        .filter_map(|r| match r {
+            ExecutionRequest::Cancel(c) => Some(fmt_cancel(w, c)),
+            ExecutionRequest::Open(o) => Some(fmt_open_req(w, o)),
+            ExecutionRequest::Shutdown => None,
+        })
+        .collect();
+    reqs.sort();
+    format!(
+        "{pfx}xlink{label} {kind} n={} S={nsd} last={last} reqs={}",
+        reqs.len(),
+        if reqs.is_empty() { "-".to_string() } else { reqs.join(",") }
+    )
+}
+
+/// `runprod MODE R`: the closures of `SystemBuilder::init` (builder.rs:377-383 / 404-408 with audit,
+/// 387-392 / 412-416 without), written out with the same shape: the engine and a
+/// `ChannelTxDroppable::new(audit_tx)` are MOVED into the closure, the closure calls the runner and returns
+/// the engine and the shutdown record; `audit_tx` is dropped when it returns. The engine has real execution
+/// transmitters whose receivers nobody reads during the run. The audit consumer keeps its receiver, reads
+/// once before every R-th `feed.next()`, and after the closure has returned reads to the end of the stream.
+fn runprod(init_toks: &[String], history: &[(Event, Option<Algo>)], mode: &str, r: usize, lines: &mut Vec<String>) {
+    let events: Vec<Event> = history.iter().map(|(e, _)| e.clone()).collect();
+    let rt = tokio::runtime::Builder::new_current_thread().build().unwrap();
+
+    // (a) with audit
+    let mut wa = fresh_world(init_toks, history);
+    let exec_rxs: ExecRxs = Arc::new(Mutex::new(std::mem::take(&mut wa.built.rxs)));
+    let at_terminal = Arc::new(Mutex::new(vec![]));
+    let (tx, rx) = mpsc_unbounded::<Tick>();
+    let rx = Rc::new(RefCell::new(rx));
+    let got = Rc::new(RefCell::new(vec![]));
+    let mut feed = ProdFeed {
+        events: events.clone().into_iter(),
+        i: 0,
+        r,
+        tick: wa.built.engine.strategy.tick.clone(),
+        rx: Some(rx.clone()),
+        got: got.clone(),
+    };
+    let mut audit_tx = ChannelTxDroppable::new(ProbeTx { tx, exec_rxs: exec_rxs.clone(), at_terminal: at_terminal.clone() });
+    let sync = mode == "sync";
+    let closure = move || {
+        let shutdown_audit: Audit = if sync {
+            sync_run_with_audit(&mut feed, &mut wa.built.engine, &mut audit_tx)
+        } else {
+            let mut stream = futures::stream::iter(&mut feed);
+            rt.block_on(async_run_with_audit(&mut stream, &mut wa.built.engine, &mut audit_tx))
+        };
+        // (reading the state does not change it; `audit_tx` goes out of scope right after)
+        let state = dstate(&Some(audit_tx));
+        (wa, shutdown_audit, state, rt)
+    };
+    let (wa, last_a, tx_state, rt) = closure();
+
+    let during = got.borrow().len();
+    let mut rx = rx.borrow_mut();
+    let queued = rx.rx.len();
+    let mut early_end = false;
+    for _ in 0..queued {
+        match poll_once(&mut *rx) {
+            Poll::Ready(Some(t)) => got.borrow_mut().push(t),
+            Poll::Ready(None) => early_end = true,
+            Poll::Pending => {}
+        }
+    }
+    // one more read: the end of the stream, or (if a transmitter is still alive somewhere) pending
+    let end = match poll_once(&mut *rx) {
+        Poll::Ready(None) => true,
+        Poll::Ready(Some(t)) => {
+            got.borrow_mut().push(t);
+            false
+        }
+        Poll::Pending => false,
+    };
+    let got = got.borrow();
+    lines.push(format!("prod_during {during}"));
+    lines.push(format!("prod_seqs {}", got.iter().map(|t| t.context.sequence.value().to_string()).collect::<Vec<_>>().join(" ")));
+    lines.push(format!("prod_terminal {}", got.iter().map(|t| if t.event.is_terminal() { "1" } else { "0" }).collect::<Vec<_>>().join(" ")));
+    lines.push(format!("prod_early_end {}", early_end as u8));
+    lines.push(format!("prod_end {}", end as u8));
+    lines.push(format!("prod_tx {tx_state}"));
+    lines.push(format!("prod_last {}", last_kind(&last_a)));
+    lines.push(format!("prod_end_seq {}", wa.built.engine.meta.sequence.value()));
+    let at = at_terminal.lock().unwrap();
+    // exactly one terminal record is ever handed over; print what the execution receivers held then, by label
+    let fmt_lens = |lens: &Vec<Option<usize>>| {
+        (0..wa.links.len())
+            .map(|label| match lens[wa.ex_idx[label]] {
+                Some(n) => n.to_string(),
+                None => "-".to_string(),
+            })
+            .collect::<Vec<_>>()
+            .join(" ")
+    };
+    match at.as_slice() {
+        [lens] => lines.push(format!("at_terminal {}", fmt_lens(lens))),
+        other => lines.push(format!("at_terminal ?{}", other.len())),
+    }
+    let mut rxs = exec_rxs.lock().unwrap();
+    for label in 0..wa.links.len() {
+        let idx = wa.ex_idx[label];
+        let got = rxs[idx].as_mut().map(drain);
+        lines.push(xlink_line("", &wa, label, got));
+    }
+
+    // (n) without audit
+    let mut wn = fresh_world(init_toks, history);
+    let mut feed = ProdFeed {
+        events: events.clone().into_iter(),
+        i: 0,
+        r: 0,
+        tick: wn.built.engine.strategy.tick.clone(),
+        rx: None,
+        got: Rc::new(RefCell::new(vec![])),
+    };
+    let closure = move || {
+        let shutdown_audit: Audit = if sync {
+            sync_run(&mut feed, &mut wn.built.engine)
+        } else {
+            let mut stream = futures::stream::iter(&mut feed);
+            rt.block_on(async_run(&mut stream, &mut wn.built.engine))
+        };
+        (wn, shutdown_audit)
+    };
+    let (mut wn, last_n) = closure();
+    lines.push(format!("plain_last {}", last_kind(&last_n)));
+    for label in 0..wn.links.len() {
+        let idx = wn.ex_idx[label];
+        let got = wn.built.rxs[idx].as_mut().map(drain);
+        lines.push(xlink_line("plain_", &wn, label, got));
+    }
+}
+
 struct EngineSt {
     world: World,
     init_toks: Vec<String>,
@@ -740,6 +951,10 @@ fn engine_op(st: &mut Option<EngineSt>, op: &[String], lines: &mut Vec<String>) 
             let s = st.as_ref().expect("init first");
             rundrop(&s.init_toks, &s.history, &op[1], op[2].parse().unwrap(), lines);
         }
+        "runprod" => {
+            let s = st.as_ref().expect("init first");
+            runprod(&s.init_toks, &s.history, &op[1], op[2].parse().unwrap(), lines);
+        }
         other => panic!("bad op {other}"),
     }
 }
@@ -758,13 +973,13 @@ fn run() {
             lines.push("@".into());
             match op[0].as_str() {
                 "chan" | "send" | "sink" | "clone" | "droptx" | "tostream" | "next" | "nextwait" | "poll" | "droprx" | "wrap"
-                | "wrapoff" | "dsend" | "disable" => chan_op(&mut ch, op, lines),
+                | "wrapoff" | "dsend" | "disable" | "dropd" => chan_op(&mut ch, op, lines),
                 "flaky" | "flakyoff" | "fsend" | "fdisable" => flaky_op(&mut fl, op, lines),
                 "merge" | "ml" | "mr" | "mcl" | "mcr" | "mpoll" | "mrun" => merge_op(&mut mg, op, lines),
                 "index" | "ipush" | "iclose" | "ipoll" => index_op(&mut ix, op, lines),
                 "snap" | "snapupd" => snapshot_op(op, lines),
-                "prod" | "pupd" | "precv" | "pdroprx" | "pdisable" => prod_op(&mut pr, op, lines),
-                "init" | "algo" | "ev" | "rundrop" => engine_op(&mut en, op, lines),
+                "prod" | "pupd" | "precv" | "pdroprx" | "pdisable" | "pdroptx" => prod_op(&mut pr, op, lines),
+                "init" | "algo" | "ev" | "rundrop" | "runprod" => engine_op(&mut en, op, lines),
                 other => panic!("bad op {other}"),
             }
         }
@@ -825,6 +1040,11 @@ fn gen_channel(rng: &mut Rng, out: &mut Out, len: i64) {
                 out.line("droprx");
             }
             96..=97 if wrapped => out.line("disable"),
+            98 if wrapped => {
+                // the ChannelTxDroppable goes away (another handle may be wrapped later)
+                wrapped = false;
+                out.line("dropd");
+            }
             _ if wrapped => out.line(format!("dsend {v}")),
             _ if rx_alive => out.line("poll"),
             _ => {}
@@ -917,23 +1137,41 @@ fn gen_snapshot(rng: &mut Rng, out: &mut Out) {
 fn gen_prod(rng: &mut Rng, out: &mut Out, len: i64) {
     out.line(format!("prod {}", rng.below(10)));
     let mut rx_alive = true;
+    let mut tx_alive = true;
     let recv_pct = *rng.pick(&[20u64, 45, 70]);
+    // how the producer ends: keeps its transmitter / drops it at a random point / drops it at the end
+    let drop_pct = *rng.pick(&[0u64, 3, 3]);
     for _ in 0..len {
         match rng.below(100) {
-            0..=2 => out.line("pdisable"),
+            0..=2 if tx_alive => out.line("pdisable"),
             3..=6 if rx_alive => {
                 rx_alive = false;
                 out.line("pdroprx");
             }
+            x if x >= 100 - drop_pct && tx_alive => {
+                tx_alive = false;
+                out.line("pdroptx");
+            }
             x if x < 7 + recv_pct && rx_alive => out.line("precv"),
-            _ => out.line(format!("pupd {}", rng.below(3))),
+            _ if tx_alive => out.line(format!("pupd {}", rng.below(3))),
+            _ if rx_alive => out.line("precv"),
+            _ => {}
+        }
+    }
+    if rng.chance(35) && tx_alive {
+        // the production ending: transmitter dropped, the consumer reads to the end
+        out.line("pdroptx");
+        if rx_alive {
+            for _ in 0..rng.below(len as u64 + 3) {
+                out.line("precv");
+            }
         }
     }
 }
 
 fn gen_engine(rng: &mut Rng, out: &mut Out, tier: &str) {
     let nex = rng.range(1, 2) as usize;
-    let links: String = (0..nex).map(|_| if rng.chance(85) { 'H' } else if rng.chance(50) { 'C' } else { 'M' }).collect();
+    let links: String = (0..nex).map(|_| if rng.chance(80) { 'H' } else { *rng.pick(&['C', 'M', 'U']) }).collect();
     let mut defs: Vec<(usize, usize, usize)> = (0..nex).map(|e| (e, rng.below(3) as usize, 3)).collect();
     for _ in 0..rng.below(2) {
         defs.push((rng.below(nex as u64) as usize, rng.below(3) as usize, 3));
@@ -1013,6 +1251,13 @@ fn gen_engine(rng: &mut Rng, out: &mut Out, tier: &str) {
     for k in ks {
         out.line(format!("rundrop {} {k}", if rng.chance(50) { "sync" } else { "async" }));
     }
+    // the run closure of SystemBuilder::init: runner, engine.shutdown(), audit_tx dropped; consumer listening
+    if rng.chance(70) {
+        out.line(format!("runprod {} {}", if rng.chance(50) { "sync" } else { "async" }, rng.below(4)));
+    }
+    if rng.chance(20) {
+        out.line(format!("runprod {} {}", if rng.chance(50) { "sync" } else { "async" }, rng.below(4)));
+    }
 }
 
 fn gen_case(rng: &mut Rng, out: &mut Out, tier: &str) {
@@ -1075,21 +1320,27 @@ fn exhaustive_merge(out: &mut Out, id: &mut usize, max_len: usize) {
     }
 }
 
-/// every history of length <= `max_len` over {dsend, disable, poll, droprx} on a wrapped channel
+/// every history of length <= `max_len` over {dsend, disable, poll, droprx, dropd} on a wrapped channel
+/// (nothing can be sent or disabled once the ChannelTxDroppable has been dropped)
 fn exhaustive_droppable(out: &mut Out, id: &mut usize, max_len: usize) {
-    let syms = ["dsend", "disable", "poll", "droprx"];
+    let syms = ["dsend", "disable", "poll", "droprx", "dropd"];
     for len in 0..=max_len {
         let total = syms.len().pow(len as u32);
         'code: for code in 0..total {
             let mut c = code;
             let mut rx = true;
+            let mut held = true;
             let mut ops: Vec<String> = vec!["chan".into(), "wrap 0".into()];
             for k in 0..len {
                 let s = syms[c % syms.len()];
                 c /= syms.len();
                 match s {
-                    "dsend" => ops.push(format!("dsend {}", k + 1)),
-                    "disable" => ops.push("disable".into()),
+                    "dsend" if held => ops.push(format!("dsend {}", k + 1)),
+                    "disable" if held => ops.push("disable".into()),
+                    "dropd" if held => {
+                        held = false;
+                        ops.push("dropd".into())
+                    }
                     "poll" if rx => ops.push("poll".into()),
                     "droprx" if rx => {
                         rx = false;
